@@ -362,7 +362,8 @@ theorem lab_reconcile_initializing (w : World) (wl : WL) (hg : RoGood w.ro) (hwl
   have hst : (csObserve w.ro wl).steps = w.ro.steps := (csObserve_same w.ro wl).1.1
   have htr : (csObserve w.ro wl).hasTraffic = w.ro.hasTraffic := (csObserve_same w.ro wl).1.2.1
   have hne : (csObserve w.ro wl).steps.isEmpty = false := by rw [hst]; simpa using hg.steps
-  unfold reconcile
+  rw [reconcile_eq_core_of_alive w hg.notDeleting hg.enabled]
+  unfold reconcileCore
   dsimp only
   rw [hf_good w.ro hg]
   dsimp only
